@@ -176,6 +176,9 @@ class Forest:
         self.stroff = {}
         self.line_strtab = bytearray(b"\0")
         self.line_stroff = {}
+        # None: abbreviation tables are stored in the order in which units first use them (what compilers
+        # do); a number: stored in an order shuffled with that seed, so that units refer to them out of order
+        self.table_shuffle = None
 
     def all_dies(self):
         out = []
@@ -281,6 +284,9 @@ class Forest:
                     c.parent = d
             u.root.parent = None
         # abbrev section
+        if self.table_shuffle is not None:
+            import random as _random
+            _random.Random(self.table_shuffle).shuffle(tables)
         ab = bytearray()
         for t in tables:
             t.offset = len(ab)
